@@ -115,4 +115,10 @@ META = {
         "note": "Trusted: Lean kernel; extractor (symbolic walk); Go runtime frame counting; structure of log/slog and log call paths.",
         "technique": "Lean 4 (list indexing lemma + decide over regenerated entry-point table) + differential stack-frame matching in two builds",
     },
+    "C08": {
+        "text": "Proof (partial): for the interleaving model - any number of goroutines, programs and schedules - an invariant (no print context in two hands; formatted buffer = owner's record; every call accounted once) is preserved by every step (induction over schedules), giving: every observed payload is the whole record of exactly one call, and at quiescence delivered = admitted as multisets. The structural facts that justify the model are regenerated from the source on every run. Data races at the memory level are outside what a model can exhibit; they are decided by the Go race detector on a stress harness (G up to 64 goroutines, 1..8 loggers, shared groups), whose payload multisets are also compared with the calls issued alone and with the Lean encoder.",
+        "design_ref": "DESIGN.md §7 C08",
+        "note": "Partial: race freedom itself rests on the race detector over the explored runs. Trusted: Lean kernel; extractor facts; sync.Pool semantics; atomic formatting step.",
+        "technique": "Lean 4 (invariant by induction over all schedules of an interleaving model; regenerated structural facts) + -race stress harness with multiset oracle",
+    },
 }
